@@ -143,10 +143,15 @@ def gen_cases(tier, seed):
         cm = {"margins": margins, "copula": W.gen_copula_spec(rng, "clayton")}
         cases.append({"kind": "chain", "model": cm, "grid": {"ctor": "uniform", "dim": 2, "h_div": W.r6(rng.uniform(2.2, 3.2)), "p": 0.99},
                       "level": 0, "methods": ["INVERSION"], "seed": int(rng.integers(2**31))})
+    # the inversion sampler beyond its storage limit (limit lowered on the instance), centred and off-centre grids
+    for dim_ in (2, 3):
+        for nl_, nr_ in ((2, 1), (3, 1), (4, 1), (1, 3), (2, 2), (1, 4), (3, 2)):
+            for st_ in ((3, 13) if not thorough else (2, 3, 5, 8, 13, 21)):
+                cases.append({"kind": "inversion-storage", "nl": nl_, "nr": nr_, "dim": dim_, "storage": st_, "seed": int(rng.integers(2**31))})
     if thorough:
-        for j in range(6):
-            cases.append({"kind": "inversion-storage", "nl": int(rng.integers(2, 6)), "nr": int(rng.integers(2, 6)), "dim": 2 + j % 2,
-                          "storage": int(rng.integers(3, 12)), "seed": int(rng.integers(2**31))})
+        for j in range(12):
+            cases.append({"kind": "inversion-storage", "nl": int(rng.integers(1, 6)), "nr": int(rng.integers(1, 6)), "dim": 2 + j % 2,
+                          "storage": int(rng.integers(3, 30)), "seed": int(rng.integers(2**31))})
     return cases
 
 
